@@ -154,6 +154,39 @@ def expand(S, cfg):
 expand.cname = 'hotspot._evaluate_hcf_expr'
 
 
+def expand_expr(S, cfg):
+    """tables with dT-dependent expressions, for a location that uses fewer columns than the table has: an expression in
+    a used column is evaluated, per assembly, on that assembly's rise of that column; an expression in a column
+    beyond the location's rises is not needed (the caller crops the column) and must not make the evaluation fail;
+    every other entry is the table's. The user's expression itself (eval) is an uninterpreted function."""
+    from dassh import hotspot
+    from .common import patched
+    n_used = cfg['n_used']                                 # number of temperature rises of the requested location
+    subf = {'direct': S.vec('d', (2, 3), 'pos', 1.0, 1.3), 'statistical': S.vec('s', (1, 3), 'pos', 1.0, 1.3)}
+    dT = S.vec('dT', (2, n_used), 'nonneg', 0.0, 200.0)
+    orig = {k: v.copy() for k, v in subf.items()}
+    g = S.function('user_expr', lambda x: 1.0 + x / 1000.0, sign='>0')
+    exprs = {('direct', 0, 0): 'expr0', ('direct', 1, 2): 'expr2', ('statistical', 0, 1): 'expr1'}
+    seen = []
+
+    def ev(expr, dT_col):
+        seen.append(expr)
+        return np.array([g(v) for v in dT_col], dtype=object if S.mode == 'sym' else float)
+    with patched((hotspot, '_eval_expr', ev)):
+        out = hotspot._evaluate_hcf_expr(subf, dict(exprs), dT)
+    for k in orig:
+        for a in range(2):
+            for r in range(orig[k].shape[0]):
+                for c in range(n_used):
+                    if (k, r, c) in exprs:
+                        S.eq(f'expr.evaluated_on_own_rise[{k},{a},{r},{c}]', out[k][a, r, c], g(dT[a, c]))
+                    else:
+                        S.eq(f'expr.other_entries_kept[{k},{a},{r},{c}]', out[k][a, r, c], orig[k][r, c])
+    S.holds('expr.only_used_columns_evaluated', sorted(seen) == sorted(e for (k, r, c), e in exprs.items() if c < n_used))
+    S.eq('canary.expr_ignored', out['direct'][0, 0, 0], orig['direct'][0, 0], canary=True)
+expand_expr.cname = 'hotspot._evaluate_hcf_expr/expressions'
+
+
 def analyze(S, cfg):
     """hotspot.analyze: every row of the result belongs to the assembly whose id stands next to it.
     Callees (their own contracts above) are stubbed by recorders: _get_peak_dt returns one recognisable row of
@@ -237,6 +270,7 @@ def configs(tier):
            (temps, dict(n_asm=2, n_dir=3, n_stat=1, n_term=2)),
            (peak_dt, dict(value='coolant')), (peak_dt, dict(value='clad_mw')), (peak_dt, dict(value='fuel_cl')),
            (split_clad, dict(n_sf=2, n_col=5)), (expand, dict()),
+           (expand_expr, dict(n_used=1)), (expand_expr, dict(n_used=2)), (expand_expr, dict(n_used=3)),
            (analyze, dict(names=['fuel', 'blanket', 'fuel', 'blanket', 'fuel'])),
            (analyze, dict(names=['fuel', 'blanket', 'fuel', 'fuel', 'blanket', 'refl', 'fuel'], partial=True,
                           reverse_types=True)),
